@@ -69,7 +69,8 @@ class Analyzer:
         self.module_globals = {}
         for rel in files:
             m = repo.module(rel)
-            self.module_globals[rel] = {t.id for n in m.tree.body if isinstance(n, ast.Assign) for t in n.targets if isinstance(t, ast.Name)}
+            self.module_globals[rel] = {t.id for n in m.tree.body if isinstance(n, ast.Assign) for t in n.targets if isinstance(t, ast.Name)} | \
+                {n.target.id for n in m.tree.body if isinstance(n, (ast.AnnAssign, ast.AugAssign)) and isinstance(n.target, ast.Name)}
             for n in m.tree.body:
                 if isinstance(n, ast.FunctionDef):
                     self._add(rel, n, None)
